@@ -332,6 +332,26 @@ def r21d(F):
         for b in cfg.exits(fn):
             labs |= set(o.at({"l": 0, "p": []}, b))
         got = fields_in(labs)
+        # a field whose value is driven through an iterator into a closure of this function that updates captured state
+        # (`arms.chain(default).for_each(|e| shape.merge_in_shape(e.derive_shape(..)))`) contributes as well
+        clos = {c.name for c in F.closures_of(fn.name)}
+        updating = set()
+        for cn in clos:
+            cf = F.fns[cn]
+            oc = Origins(cf)
+            if any(t["args"] and ("param", 1) in oc.at(t["args"][0], b) and not util.is_std_callee(callee(t)) for b, t in cf.calls()):
+                updating.add(cn)
+        made = {}
+        for b, j, pl, rv, m in fn.assigns():
+            if rv["k"] == "agg" and rv.get("adt") == "{closure}" and rv.get("closure") in updating and not pl["p"]:
+                made[pl["l"]] = rv["closure"]
+        if made:
+            for b, t in fn.calls():
+                locs = {op_local(a) for a in t["args"]}
+                if any(l in made or (l is not None and set(util.copies_of(fn, l, allow_not=False)) & set(made)) for l in locs if l is not None) or \
+                        any(set(made) & set(util.feeders_of(fn, l)) for l in locs if l is not None):
+                    for a in t["args"]:
+                        got |= fields_in(o.at(a, b))
         for f in fields:
             ok = f in got
             r.inst("%s:%s" % (ty, f), fn.where(), ok, "flows into the shape" if ok else
